@@ -1,3 +1,4 @@
+import ComposeVerif.Model.PathsLoaders
 import ComposeVerif.Ops.Common
 import ComposeVerif.Model.Paths
 import ComposeVerif.Spec.Paths
@@ -155,9 +156,35 @@ def symstrOp : Handler := fun args =>
   | some r => Json.mkObj [("ok", str r)]
   | none => Json.mkObj [("err", Json.bool true)]
 
+open CV.Paths.Loaders in
+def renderLoader : Option Loader → Json
+  | none => Json.str "nil"
+  | some (.remote i) => Json.str s!"r{i}"
+  | some (.loc d) => Json.str ("L:" ++ String.mk d)
+
+open CV.Paths.Loaders in
+/-- the resource-loader lists of a sequence of nested loads on the heap model: `remotes` registered loaders, `spare`
+unused slots in the caller's slice, `toOptions` for `wd`, then `script = [[from, dir], …]` -/
+def loadersOp : Handler := fun args =>
+  let n := getNat args "remotes"
+  let spare := getNat args "spare"
+  let m : Heap × GoSlice := if n + spare = 0 then (Heap.empty, none)
+    else alloc Heap.empty ((List.range n).map fun i => some (.remote (i + 1))) spare
+  let o := toOptions m.1 m.2 (getStr args "wd").toList
+  let script : List (Nat × Str) := match args.getObjVal? "script" with
+    | .ok (.arr a) => a.toList.filterMap fun e => match e with
+      | .arr #[.num k, .str d] => some (k.mantissa.toNat, d.toList)
+      | _ => none
+    | _ => []
+  let r := runScript o.1 [o.2] script
+  let capOf : GoSlice → Nat := fun s => match s with | none => 0 | some t => t.cap
+  Json.mkObj [
+    ("mine", Json.arr ((full r.1 m.2).map renderLoader).toArray),
+    ("lists", Json.arr (r.2.map fun s => Json.mkObj [("read", Json.arr ((read r.1 s).map renderLoader).toArray), ("cap", Json.num (capOf s))]).toArray)]
+
 def handlers : List (String × Handler) :=
   [("c12.join", joinOp), ("c12.winabs", winabsOp), ("c12.remote", remoteOp),
    ("c12.resolve", resolveOp), ("c12.spec", specOp), ("c12.specs", specsOp),
-   ("c12.rel", relOp), ("c12.ldir", ldirOp), ("c12.symres", symresOp), ("c12.symstr", symstrOp)]
+   ("c12.rel", relOp), ("c12.ldir", ldirOp), ("c12.symres", symresOp), ("c12.symstr", symstrOp), ("c12.loaders", loadersOp)]
 
 end CV.Ops.C12
